@@ -459,21 +459,38 @@ func cmdClient(args []string) int {
 	runOne := func(j job, unitMs int) scnResult {
 		ctx, cancel := context.WithTimeout(context.Background(), time.Duration(j.s.TimeoutU)*time.Duration(unitMs)*time.Millisecond+10*time.Second)
 		defer cancel()
-		cmd := exec.CommandContext(ctx, self, "scn", j.s.Name, j.transport, strconv.Itoa(j.version), strconv.FormatUint(j.seed, 10))
-		cmd.Env = append(os.Environ(), fmt.Sprintf("OAP_UNIT_MS=%d", unitMs), "GOMAXPROCS=4")
+		bin := self
+		if b := os.Getenv("OAP_SCN_BIN"); b != "" {
+			bin = b // the race-detector build of this harness (C17)
+		}
+		cmd := exec.CommandContext(ctx, bin, "scn", j.s.Name, j.transport, strconv.Itoa(j.version), strconv.FormatUint(j.seed, 10))
+		cmd.Env = append(os.Environ(), fmt.Sprintf("OAP_UNIT_MS=%d", unitMs), "GOMAXPROCS=4", "GORACE=halt_on_error=0 exitcode=0")
+		var stderrBuf strings.Builder
+		cmd.Stderr = &stderrBuf
 		out, err := cmd.Output()
+		stderr := stderrBuf.String()
 		var r scnResult
 		lines := strings.Split(strings.TrimSpace(string(out)), "\n")
 		if jerr := json.Unmarshal([]byte(lines[len(lines)-1]), &r); jerr != nil {
 			r = scnResult{Name: j.s.Name, Transport: j.transport, Version: j.version, Seed: j.seed, Status: "crashed"}
-			stderr := ""
-			if ee, ok := err.(*exec.ExitError); ok {
-				stderr = string(ee.Stderr)
-			}
 			if len(stderr) > 6000 {
 				stderr = stderr[:3000] + "\n…\n" + stderr[len(stderr)-3000:]
 			}
 			r.Detail = fmt.Sprintf("process ended without a result (%v): %s", err, stderr)
+			return r
+		}
+		// race detector reports whose stacks are inside the library
+		if strings.Contains(stderr, "WARNING: DATA RACE") {
+			for _, rep := range strings.Split(stderr, "==================") {
+				if strings.Contains(rep, "WARNING: DATA RACE") && strings.Contains(rep, "openapi-protocol/go/") {
+					r.Status = "race"
+					if len(rep) > 5000 {
+						rep = rep[:5000]
+					}
+					r.Detail = rep
+					break
+				}
+			}
 		}
 		return r
 	}
